@@ -5,14 +5,18 @@ use verifkit::{Args, Ctx};
 #[global_allocator]
 static A: verifkit::alloc::Tracking = verifkit::alloc::Tracking;
 
+mod c10;
 mod c11;
+mod c12;
 
 fn main() {
     verifkit::quiet_panics();
     let args = Args::parse();
     let ctx = Ctx::new(args);
     let code = match ctx.args.prop.as_str() {
+        "C10" => c10::run(&ctx),
         "C11" => c11::run(&ctx),
+        "C12" => c12::run(&ctx),
         p => {
             eprintln!("rtprops: unknown property {p}");
             2
